@@ -104,7 +104,10 @@ def run(prog: Program, rep: Report, tier: str) -> None:
               f"records are iterated as {[T.show(x)[:120] for x in chunk_terms]}; expected 32-nibble chunks of hexlify(reply)[90:-8] (16-byte records from byte 45, 4-byte trailer)", key="R10.1|slicing")
     empties = [o for o in rets if any(isinstance(g, tuple) and g[0] == "itercount" and g[2] == 0 for g in o.state.pc)]
     ok_empty = len(empties) == 1 and empties[0].value[0] == "obj" and empties[0].state.heap[empties[0].value[1]].kind == "set" and not empties[0].state.heap[empties[0].value[1]].items and len(empties[0].state.pc) == 1
-    rep.check(ok_empty, "R10.1", "no records => empty set", where, "the zero-record path does not return an empty set unconditionally (something may raise or be added first)", key="R10.1|empty")
+    if not chunk_terms:
+        rep.undecided("R10.1", "no records => empty set", where, "no path with a decided record count was explored")
+    else:
+      rep.check(ok_empty, "R10.1", "no records => empty set", where, "the zero-record path does not return an empty set unconditionally (something may raise or be added first)", key="R10.1|empty")
     rep.check(all(o.exc_name in ("ValueError", "OverflowError", "UnicodeDecodeError") for o in outs if o.kind == "raise"), "R10.1", "only decode errors raise", where,
               f"listing can raise {sorted({o.exc_name for o in outs if o.kind == 'raise'})}", key="R10.1|raise")
     # R10.2
@@ -235,7 +238,19 @@ def run(prog: Program, rep: Report, tier: str) -> None:
             sp = F.split_signed(A.writes(o)[1].args[0])
             if sp:
                 mm_, holes_ = F.match_layout(sp[0], toks)
-                if not mm_ and F.literal(holes_.get("ARG:days")) == "00":
+                fld_ = holes_.get("ARG:days")
+                for _ in range(4):
+                    # a field chosen inside the value (conditional expression in a helper): the choice an empty collection takes
+                    if not (isinstance(fld_, tuple) and fld_[:1] == ("seq",) and len(fld_[2]) == 1 and isinstance(fld_[2][0], tuple) and len(fld_[2][0]) == 4 and fld_[2][0][0] == "alt"):
+                        break
+                    d_ = [F.guard_under(g, empty_facts) for g in F.flat_pc([fld_[2][0][1]])]
+                    if any(x is False for x in d_):
+                        fld_ = fld_[2][0][3]
+                    elif all(x is True for x in d_):
+                        fld_ = fld_[2][0][2]
+                    else:
+                        break
+                if not mm_ and F.literal(fld_) == "00":
                     ok_e = True
         refused = sorted({o.exc_name for o in oouts if o.kind == "raise" and len(A.writes(o)) <= 1 and not A.excluded_by_assumptions(o.state.pc)
                           and not any(F.guard_under(g, empty_facts) is False for g in F.flat_pc(list(o.state.pc)))
